@@ -95,6 +95,49 @@ def run_stack(stack, cfg, state, r):
     return res, env.server.log, env.server.errors, sockev, env
 
 
+def run_sequence(stack, cfg, state, seq):
+    """several calls on ONE stack object: -> [(result, commands the server parsed during this call)], env"""
+    env = Env()
+    kw = build_kwargs(cfg, env)
+    if stack in ("client", "retry1"):
+        c = env.client("client", **kw)
+        if stack != "client":
+            c = RetryingClient(c, attempts=1)
+    else:
+        c = env.client(stack, **kw)
+    preload(env, cfg, state)
+    out = []
+    for r in seq:
+        n0 = len(env.server.log)
+        if "pos_default" in r:
+            rr = dict(r)
+            d = rr.pop("pos_default")
+            res = env.call(lambda rr=rr, d=d: c.get(rr["key"], d))
+        else:
+            res = env.call(ops.invoke, c, r)
+        out.append((res, env.server.log[n0:]))
+    return out, env
+
+
+def check_sequence(case):
+    cfg, state, seq = case["cfg"], case["state"], case["ops"]
+    base, _ = run_sequence("client", cfg, state, seq)
+    for stack in STACKS:
+        if stack.startswith("hash") and any(r["op"] in ("getitem", "setitem", "delitem") for r in seq):
+            continue
+        got, env = run_sequence(stack, cfg, state, seq)
+        for i, ((res, log), (bres, blog)) in enumerate(zip(got, base)):
+            desc = "%s vs Client at step %d of %r, state %s, cfg %r" % (stack, i, seq, state, cfg)
+            if not same_result(res, bres):
+                raise Violation(["sequence-result", stack, seq[i]["op"]], "returned %r, Client %r: %s" % (_short(res), _short(bres), desc))
+            if log != blog:
+                raise Violation(["sequence-wire", stack, seq[i]["op"]], "server parsed %r, with Client %r: %s" % (_short(log), _short(blog), desc))
+        if env.net.flags:
+            raise Violation(["net-flags", stack], "fake network flagged %r after %r" % (env.net.flags[:2], seq))
+    errors = sum(1 for res, _ in base if res[0] == "exc")
+    return errors > 0 and len(seq) > 1, ["sequence", "len=%d" % len(seq), "errors=%d" % min(errors, 3)]
+
+
 def norm(res):
     if res[0] == "ok":
         return ("ok", res[1])
@@ -264,10 +307,33 @@ def random_strategy(tier):
     return st.fixed_dictionaries({"cfg": cfg, "state": st.sampled_from(["hit", "numeric", "miss"]), "op": op})
 
 
+ERR_CALLS = [c for c in CALLS if c["op"] in ("incr", "decr") or c.get("key") == "bad key" or c.get("expire") in ("x", None) and "expire" in c or c.get("delta") == "x"]
+FOLLOW_CALLS = [CALLS[0], CALLS[13], CALLS[16], CALLS[24], CALLS[27], CALLS[30], CALLS[33], CALLS[37]]
+
+
+def sequence_cases(tier, seed):
+    """an error-provoking call followed by ordinary calls on the same object (state carried by the wrapper must not leak)"""
+    for cfg in (CFGS[0], CFGS[3], CFGS[7]):
+        for state in ("hit", "numeric", "miss"):
+            for e in ERR_CALLS:
+                for f in FOLLOW_CALLS:
+                    yield {"cfg": cfg, "state": state, "ops": [e, f]}
+                yield {"cfg": cfg, "state": state, "ops": [CALLS[0], e, CALLS[13], CALLS[0], CALLS[33]]}
+
+
+def sequence_strategy(tier):
+    base = random_strategy(tier)
+    return st.builds(lambda c, more: {"cfg": c["cfg"], "state": c["state"], "ops": [c["op"]] + [m["op"] for m in more]},
+                     base, st.lists(base, min_size=1, max_size=4))
+
+
 PARTS = [
     Part("grid", "enum", check, cases=grid_cases, exhaustive=True),
     Part("random", "hyp", check, strategy=random_strategy,
          examples={"quick": 300, "thorough": 2500}, shards={"quick": 6, "thorough": 16}),
+    Part("sequences", "enum", check_sequence, cases=sequence_cases, exhaustive=True),
+    Part("random-sequences", "hyp", check_sequence, strategy=sequence_strategy,
+         examples={"quick": 150, "thorough": 1500}, shards={"quick": 6, "thorough": 16}),
 ]
 
 
